@@ -1,5 +1,6 @@
 """C01 — assembly yields exactly the Golden Gate ligation product"""
 import asm
+import core
 import gen
 import impl
 
@@ -39,9 +40,9 @@ def check_case(ctx, case):
     ctx.note("chain={}".format(len(case["mods"])))
     ctx.case({k: v for k, v in case.items() if k != "info"}, nontrivial=f[0] == "ok")
     ctx.op(op, case, reply=reply)
-    if ctx.evaluations % 4 == 0:
+    if core.pick(case, 4):
         # the same objects over time: looked at before assembling, assembled twice
-        asm.lifecycle(ctx, {k: v for k, v in case.items() if k != "info"}, pretouch=True)
+        asm.lifecycle(ctx, case, pretouch=True)
     # the structures the classes were matched with are the model's closed forms
     e = asm.enzyme(case["enz"])
     ctx.op(("STRUCT", "M", e, None, None), None)
